@@ -544,8 +544,7 @@ def refresh_isolation(ctx, drv):
     uses a stub gids_is_member; this ties the statement's refresh clause to the real code.)"""
     from . import c17
     from ..gen import g_gids
-    if not g_gids.generate(ctx):
-        return
+    g_gids.generate(ctx)       # (a failed extraction is already a failed obligation: the lookups below are judged by the property oracle either way)
     h, heb = c17.build_all(ctx)
     if not h or not heb:
         return
@@ -556,6 +555,8 @@ def refresh_isolation(ctx, drv):
     ctx.sample(ops[0][:300])
     ctx.dist("refresh_isolation_scenarios", len(ops))
     c17.run_streams(ctx, ops, h, heb, drv or "/bin/cat", tag="-during-refresh")
+    # ... and the converse interleaving: a lookup (on its own thread) held inside hash_find across a whole refresh
+    c17.run_parked(ctx, h, 60 if ctx.tier == "thorough" else 6)
 
 
 def run(ctx):
